@@ -205,7 +205,7 @@ func runC09(env *lib.Env, rep *lib.Report) {
 	voc := c09Vocabulary()
 	lib.StartWatchdog(env, rep, &r.prog, 45*time.Second, "parser-hang")
 	// ---- (i) byte strings
-	alphabet := []byte{'a', 'S', '1', '0', '\'', '"', '`', '\\', '\n', ' ', '(', ')', ',', '.', ';', '*', '=', '!', '<', '>', '-', '+', '/', '_', 0x00, 0x80, 0xff, 0xef, '\t', '9'}
+	alphabet := []byte{'a', 'S', '1', '0', '\'', '"', '`', '\\', '\n', ' ', '(', ')', ',', '.', ';', '*', '=', '!', '<', '>', '-', '+', '/', '_', 0x00, 0x80, 0xff, 0xef, '\t', '9', 'e', 'x', 'b'}
 	maxLen := 5
 	if env.Thorough() {
 		maxLen = 6
